@@ -50,6 +50,14 @@ MUTS = [
  ("lib/lha_input_stream.c","x10 seek from the start of the file", "fseek(handle, (long) bytes, SEEK_CUR)", "fseek(handle, (long) bytes, SEEK_SET)", "C16", 1),
  ("lib/lha_input_stream.c","x11 fallback tolerates a short fread", "		if (result != (int) len) {\n			return 0;\n		}\n\n		bytes -= len;", "		if (result <= 0) {\n			return 0;\n		}\n\n		bytes -= len;", "C16", 1),
  ("src/main.c","x12 any name starting with '-' is stdin", "if (!strcmp(filename, \"-\")) {", "if (filename[0] == '-') {", "C16", 1),
+ # ---- C06 R8 glob
+ ("src/filter.c","g1 star must consume one byte", "if (match_glob(glob + 1, str)) {", "if (match_glob(glob + 1, str + 1)) {", "C06", 1),
+ ("src/filter.c","g2 '?' no longer a wildcard", "} else if (*glob == '?' || *glob == *str) {", "} else if (*glob == *str) {", "C06", 1),
+ ("src/filter.c","g3 '?' also matches when bytes differ by case bit", "} else if (*glob == '?' || *glob == *str) {", "} else if (*glob == '?' || (*glob | 0x20) == (*str | 0x20)) {", "C06", 1),
+ ("src/filter.c","g4 trailing stars not skipped", "	while (*glob == '*') {\n		++glob;\n	}\n", "", "C06", 1),
+ ("src/filter.c","g5 end of string always matches", "	return *glob == '\\0';\n}", "	return 1;\n}", "C06", 1),
+ ("src/filter.c","g6 benign: operands of || swapped", "} else if (*glob == '?' || *glob == *str) {", "} else if (*glob == *str || *glob == '?') {", "C06", 0),
+ ("src/filter.c","g7 mismatch ignored (skips the string byte)", "		} else {\n			return 0;\n		}\n\n		++str;", "		}\n\n		++str;", "C06", 1),
 ]
 only = sys.argv[1:]
 bad = 0
@@ -63,7 +71,7 @@ for f, name, old, new, prop, expect in MUTS:
             print("%-60s PATTERN %d" % (name, src.count(old))); bad += 1; continue
         open(d+"/t/"+f,"w").write(src.replace(old,new))
         # compile check
-        cc = subprocess.run(["cc","-fsyntax-only","-DHAVE_CONFIG_H","-I.","-I..","-Ipublic","-I../lib/public",os.path.basename(f)],cwd=d+"/t/"+os.path.dirname(f),capture_output=True,text=True)
+        cc = subprocess.run(["cc","-fsyntax-only","-DHAVE_CONFIG_H","-I.","-I..","-Ipublic","-I../lib/public","-I../lib",os.path.basename(f)],cwd=d+"/t/"+os.path.dirname(f),capture_output=True,text=True)
         if cc.returncode: print(name, "DOES NOT COMPILE", cc.stderr[:300]); bad += 1; continue
         r = subprocess.run(["/verif/check",prop],env=dict(os.environ,LHSA_REPO=d+"/t",LHSA_EVIDENCE=d+"/ev"),capture_output=True,text=True)
         v = re.findall(r"violated: rule=(\S+) instance=(.{0,150})", r.stdout)
